@@ -7,7 +7,7 @@ OutFile == IOEnv.OUT
 VARIABLES l, st
 vars == <<l, st>>
 Init0 == [case |-> 0, kind |-> "", fs |-> [term |-> "none"], hasF |-> FALSE, imp |-> [s |-> 0, e |-> 0], impOK |-> FALSE,
-          vs |-> <<>>, via |-> FALSE, truncated |-> FALSE,
+          vs |-> <<>>, via |-> FALSE, truncated |-> FALSE, meta |-> <<>>,
           viol |-> {}, drift |-> {}, cases |-> 0, polls |-> 0]
 Bad(s, ln, ids, what) == {<<s.case, ln, id, what>> : id \in ids}
 
@@ -45,6 +45,7 @@ Step(s0, e, ln) ==
                               !.imp = [s |-> 0, e |-> Rel(e.bL, e.aL)], !.impOK = Strict,
                               !.viol = s0.viol \cup Bad(s0, ln, OpenFailures(e), "metadata / etag syntax")]
          ELSE [s0 EXCEPT !.fs = InitFile(e.size, e.a, e.b), !.hasF = TRUE, !.via = e.via,
+                         !.meta = <<e.len, e.lm_s, e.lm_ns, e.etag>>,
                          !.imp = [s |-> e.a, e |-> e.b], !.impOK = Strict /\ ~e.via,
                          !.viol = s0.viol \cup Bad(s0, ln, OpenFailures(e), "metadata / etag syntax")]
     [] e.ev = "fhead" ->
@@ -66,6 +67,11 @@ Step(s0, e, ln) ==
                             !.imp = r.st, !.impOK = s0.impOK /\ same,
                             !.drift = IF s0.impOK /\ ~same THEN s0.drift \cup {<<s0.case, ln, "read size / result">>} ELSE s0.drift,
                             !.viol = s0.viol \cup Bad(s0, ln, fs2.bad \ before, "poll")]
+    [] e.ev = "fmeta" ->
+         \* "its length and modification time are those of the file at construction": asked again of the
+         \* same instance after the file was truncated / polled, the answers are the same
+         [s0 EXCEPT !.viol = s0.viol \cup Bad(s0, ln, IF s0.hasF /\ s0.meta # <<>> /\ s0.meta # <<e.len, e.lm_s, e.lm_ns, e.etag>>
+                                                       THEN Enforce \cap {"C18"} ELSE {}, "metadata of one instance changed")]
     [] e.ev = "fend" -> [s0 EXCEPT !.hasF = FALSE]
     [] e.ev = "fconc" ->
          \* streams over clones of one entity, polled concurrently on several threads (logical facts
